@@ -52,6 +52,12 @@
 (*                              (TargetOutsideRoot); a link whose target   *)
 (*                              passes THROUGH another link may resolve    *)
 (*                              outside and is left in the target          *)
+(* Status (cfg constants): the first four were repaired in /repo by three  *)
+(* fix: commits (zip-slip filter; component-wise check on the resolved      *)
+(* location BEFORE MkdirAll; the same check on the link path) and are FALSE;*)
+(* Dev_LexicalLinkTarget is the open finding C06-unpack-link-chain-escape   *)
+(* (proposed repair: spec/Unpack.proposed-fix.patch = operator              *)
+(* SweepEscaping).  Unpack-sanity-outside.cfg keeps all five TRUE.          *)
 (* TLC checks: ContainmentIdeal (the ideal transcription satisfies the     *)
 (* property at every step), Completeness (every violation of the as-built  *)
 (* transcription disappears or changes when one listed deviation is        *)
